@@ -1,6 +1,7 @@
 package server
 
 import (
+	"encoding/binary"
 	"encoding/json"
 	"fmt"
 	"io"
@@ -66,6 +67,10 @@ func getJSONLogFile(versionID, dataID dvid.UUID) (lf *logFile, err error) {
 	var found bool
 	lf, found = jsonLogFiles[fname]
 	if !found {
+		if err = repairTornJSONLog(fname); err != nil {
+			dvid.Errorf("Could not check JSON mutation log %q for an incomplete last record: %v\n", fname, err)
+			return nil, err
+		}
 		var f *os.File
 		f, err = os.OpenFile(fname, os.O_APPEND|os.O_CREATE|os.O_RDWR|os.O_SYNC, 0755)
 		if err != nil {
@@ -77,6 +82,43 @@ func getJSONLogFile(versionID, dataID dvid.UUID) (lf *logFile, err error) {
 		jsonLogFiles[fname] = lf
 	}
 	return
+}
+
+// repairTornJSONLog removes an incompletely written last record (server died between or
+// inside the header and payload writes of an append) from an existing mutation log, so that
+// records appended from now on are not swallowed by it.  Each record is a 10-byte header
+// (uint32 payload length, uint32 checksum, uint16 type) followed by the payload.
+func repairTornJSONLog(fname string) error {
+	f, err := os.OpenFile(fname, os.O_RDWR, 0755)
+	if err != nil {
+		if os.IsNotExist(err) {
+			return nil
+		}
+		return err
+	}
+	defer f.Close()
+	fi, err := f.Stat()
+	if err != nil {
+		return err
+	}
+	size := fi.Size()
+	var pos int64
+	hdr := make([]byte, 10)
+	for pos+10 <= size {
+		if _, err := f.ReadAt(hdr, pos); err != nil {
+			return err
+		}
+		next := pos + 10 + int64(binary.LittleEndian.Uint32(hdr[0:4]))
+		if next > size {
+			break
+		}
+		pos = next
+	}
+	if pos < size {
+		dvid.Criticalf("truncating incomplete last record of mutation log %q: %d -> %d bytes\n", fname, size, pos)
+		return f.Truncate(pos)
+	}
+	return nil
 }
 
 // LogJSONMutation logs a JSON mutation record to the Jsonstore directory in the config.
